@@ -447,6 +447,7 @@ Lemma decision_decrypt_failed cfg q k alg stats :
   (k = KNak /\ stats = [q_version q; 1; 2; 0]) \/ (k = KDeny /\ c_intended cfg = 1).
 Proof.
   intros HD. unfold decision. rewrite HD. cbn [negb andb]. cbv zeta.
+  destruct (negb (q_mode q =? 3)); [discriminate|].
   destruct (negb (existsb (Z.eqb (q_version q)) (c_accepted cfg))); [discriminate|].
   destruct (c_intended cfg =? 1) eqn:E1.
   - change (1 =? 0) with false. cbn [negb andb].
@@ -461,7 +462,8 @@ Lemma decision_nts_time cfg q alg stats :
   q_decrypt_failed q = false /\ q_cookie q = Some alg /\ q_mode q = 3 /\ stats = [q_version q; 1; 4; c_intended cfg].
 Proof.
   unfold decision. destruct (q_decrypt_failed q) eqn:HD; cbn [negb andb]; cbv zeta.
-  - destruct (negb (existsb (Z.eqb (q_version q)) (c_accepted cfg))); [discriminate|].
+  - destruct (negb (q_mode q =? 3)); [discriminate|].
+    destruct (negb (existsb (Z.eqb (q_version q)) (c_accepted cfg))); [discriminate|].
     destruct (c_intended cfg =? 1).
     + change (1 =? 0) with false. cbn [negb andb].
       destruct (c_require_nts cfg =? 1); [discriminate|].
